@@ -30,6 +30,8 @@ def check(run, prog, tier):
     run.rule("C19-B", "every view is a sum over exactly the cells of its class", minimum=9)
     run.rule("C19-C", "add = read cell, add, write the same cell - or refuse (finite evaluation)", minimum=20)
     run.rule("C19-D", "resolution conversions only descend and sum over the partition", minimum=12)
+    run.rule("C19-F", "reading a view never writes into the storage: accumulators of the view helpers own their "
+                      "array (path-sensitive ownership states)", minimum=8)
     run.rule("C19-E", "the storage-resolution label changes only with the data it describes (who may write it, "
                       "under which guard)", minimum=3)
     m = prog.module(T2)
@@ -38,7 +40,115 @@ def check(run, prog, tier):
     rule_C(run, prog, m)
     rule_D(run, prog, m)
     rule_E(run, prog, m)
+    rule_F(run, prog, m)
     run.extra["exhaustive"] = True
+
+
+def rule_F(run, prog, m):
+    """Each view helper sums stored cells into an accumulator and returns it.  The accumulator must be an
+    array of its own (FRESH: numpy.zeros, a copy, the result of a binary +) whenever something is added
+    to it in place; an accumulator that is merely bound to a stored cell (ALIAS: `data = ddata`) and
+    then receives `data += ...` adds the other cells into the stored cell itself, so that every later
+    read - type, process, signal, total - is wrong.  The helpers are interpreted over the ownership
+    states {NONE, FRESH, ALIAS, STORED} with the storage initialised and every looked-up cell present,
+    each loop taken twice."""
+    rid = "C19-F"
+    helpers = [f for nme, f in sorted(m.functions.items()) if nme.startswith("_") and ("_to_" in nme) and nme.split("_to_")[-1] in
+               ("processes", "signals", "total")]
+    if len(helpers) < 8:
+        raise AnalysisError("only %d view helpers found (8 confirmed)" % len(helpers))
+    for f in helpers:
+        problems = []
+
+        def ev(e, st):
+            if isinstance(e, ast.Constant) and e.value is None:
+                return "NONE"
+            if isinstance(e, ast.Name):
+                return st.get(e.id, "OTHER")
+            if isinstance(e, ast.Subscript):
+                base = e
+                while isinstance(base, ast.Subscript):
+                    base = base.value
+                if "_d__data" in norm(base) or st.get(norm(base)) == "STORED" or (isinstance(base, ast.Name) and st.get(base.id) == "STORED"):
+                    return "STORED"
+                return "OTHER"
+            if isinstance(e, ast.Attribute) and e.attr in ("_d__data", "d__data"):
+                return "STORED"
+            if isinstance(e, ast.Call):
+                cn = call_name(e)
+                if cn in ("zeros", "zeros_like", "copy", "array", "deepcopy", "empty"):
+                    return "FRESH"
+                if cn.startswith("_") and "_to_" in cn:
+                    return "FRESH"      # another helper: its own verdict covers it
+                return "OTHER"
+            if isinstance(e, ast.BinOp):
+                return "FRESH"
+            return "OTHER"
+
+        def test(t, st):
+            tx = norm(t)
+            if tx in ("obj.storage_initialized", "self.storage_initialized"):
+                return True
+            if isinstance(t, ast.UnaryOp) and isinstance(t.op, ast.Not):
+                v = test(t.operand, st)
+                return None if v is None else (not v)
+            if isinstance(t, ast.BoolOp):
+                vs = [test(v, st) for v in t.values]
+                if isinstance(t.op, ast.And):
+                    return False if False in vs else (None if None in vs else True)
+                return True if True in vs else (None if None in vs else False)
+            if isinstance(t, ast.Compare) and len(t.ops) == 1 and isinstance(t.comparators[0], ast.Constant) \
+                    and t.comparators[0].value is None:
+                v = ev(t.left, st)
+                if v == "OTHER":
+                    return None
+                isnone = (v == "NONE")
+                if isinstance(t.ops[0], ast.Is):
+                    return isnone
+                if isinstance(t.ops[0], ast.IsNot):
+                    return not isnone
+            return None
+
+        def run_block(stmts, st):
+            for s_ in stmts:
+                if isinstance(s_, ast.Assign) and len(s_.targets) == 1 and isinstance(s_.targets[0], ast.Name):
+                    v = ev(s_.value, st)
+                    st[s_.targets[0].id] = "ALIAS" if v in ("STORED", "ALIAS") else v
+                elif isinstance(s_, ast.AugAssign) and isinstance(s_.target, ast.Name):
+                    if st.get(s_.target.id) == "ALIAS":
+                        problems.append(s_)
+                elif isinstance(s_, ast.AugAssign) and isinstance(s_.target, ast.Subscript):
+                    b_ = s_.target
+                    while isinstance(b_, ast.Subscript):
+                        b_ = b_.value
+                    if isinstance(b_, ast.Name) and st.get(b_.id) == "ALIAS":
+                        problems.append(s_)
+                elif isinstance(s_, ast.If):
+                    c = test(s_.test, st)
+                    if c is True:
+                        run_block(s_.body, st)
+                    elif c is False:
+                        run_block(s_.orelse, st)
+                    else:
+                        a, b = dict(st), dict(st)
+                        run_block(s_.body, a)
+                        run_block(s_.orelse, b)
+                        for k in set(a) | set(b):
+                            va, vb = a.get(k), b.get(k)
+                            st[k] = va if va == vb else ("ALIAS" if "ALIAS" in (va, vb) else (va or vb))
+                elif isinstance(s_, ast.For):
+                    for _ in range(2):
+                        run_block(s_.body, st)
+                elif isinstance(s_, ast.Try):
+                    # the cell is present: the body runs, the handlers do not
+                    run_block(s_.body, st)
+                elif isinstance(s_, ast.With):
+                    run_block(s_.body, st)
+        run_block(f.node.body, {})
+        run.obligation(rid, "twod2." + f.name, not problems, key="accumulator-owns-array",
+                       message="%s adds in place into an accumulator that is only a reference to a stored cell (%s): "
+                               "reading this view changes what is stored" % (f.name, [norm(p_)[:40] for p_ in problems[:2]]),
+                       loc=f.loc(problems[0]) if problems else f.loc(), sample={"helper": f.name})
 
 
 def rule_E(run, prog, m):
